@@ -33,11 +33,11 @@ func init() {
 func (c *c05) Cases(tier string, seed int64) []core.Case {
 	var cs []core.Case
 	r := core.Rng("C05", tier, seed)
-	n := map[string]int{"quick": 260, "thorough": 3000}[tier]
+	n := map[string]int{"quick": 260, "thorough": 15000}[tier]
 	for i := 0; i < n; i++ {
 		cs = append(cs, core.MkCase(fmt.Sprintf("small-%d", i), c05Params{r.Int63(), "small"}))
 	}
-	nb := map[string]int{"quick": 6, "thorough": 40}[tier]
+	nb := map[string]int{"quick": 7, "thorough": 105}[tier]
 	for i := 0; i < nb; i++ {
 		cs = append(cs, core.MkCase(fmt.Sprintf("many-blocks-%d", i), c05Params{r.Int63(), "many-blocks"}))
 		// the slice-count class is chosen by bits 8.. of the seed: cycle through all classes
